@@ -100,10 +100,17 @@ RecProgs(k) ==
     \* variable of the same name is untouched, a second call starts afresh)
     zeroparam |-> <<Let("n", IntL(k)), Let("nx", FnLit(<<>>, <<Code(If(Id("q"), <<Ret(Str(<<"a", "g", "a", "i", "n">>))>>)), Let("n", IntL(50)), Let("q", IntL(7)), Ret(Bin("+", Id("n"), IntL(1)))>>)),
                     Text(<<"[">>), Emit(Call("nx", <<>>)), Text(<<"|">>), Emit(Id("n")), Text(<<"|">>), Emit(IfElse(Id("q"), <<Text(<<"L">>)>>, <<Text(<<"-">>)>>)), Text(<<"|">>), Emit(Call("nx", <<>>)), Text(<<"]">>)>>,
+    \* a call that reaches NO return (its value is nothing): the caller's scope is current again all the same
+    noret |-> <<Let("x", Str(<<"o", "u", "t">>)), Let("pick", FnLit(<<"x">>, <<Code(If(Bin("==", Id("x"), Str(<<"a">>)), <<Ret(Str(<<"A">>))>>))>>)),
+                Text(<<"[">>), Emit(Call("pick", <<Str(<<"b">>)>>)), Text(<<"|">>), Emit(Id("x")), Text(<<"|">>), Emit(Call("pick", <<Str(<<"a">>)>>)), Text(<<"|">>), Emit(Id("x")), Text(<<"|">>),
+                Emit(Call("id", <<Id("x")>>)), Text(<<"]">>)>>,
+    \* a parameter named _ is a parameter like any other: arguments are bound by position
+    underscore |-> <<Let("snd", FnLit(<<"_", "v">>, <<Ret(Id("v"))>>)), Let("trd", FnLit(<<"_", "w", "n">>, <<Code(If(Id("w"), <<Ret(Id("n"))>>)), Ret(Str(<<"z">>))>>)),
+                     Text(<<"[">>), Emit(Call("snd", <<Str(<<"a">>), IntL(k)>>)), Text(<<"|">>), Emit(Call("trd", <<IntL(1), Bool(TRUE), IntL(k)>>)), Text(<<"|">>), Emit(Call("trd", <<IntL(1), Bool(FALSE), IntL(k)>>)), Text(<<"]">>)>>,
     \* the name at a call site is bound to another function between two executions of that call (loop variable)
     rebind |-> <<Let("inc", FnLit(<<"m">>, <<Ret(Bin("+", Id("m"), IntL(1)))>>)), Let("dbl", FnLit(<<"m">>, <<Ret(Bin("*", Id("m"), IntL(2)))>>)),
                 Text(<<"[">>), Emit(For("", "w", Arr(<<Id("inc"), Id("dbl"), Id("inc")>>), <<Emit(Call("w", <<IntL(k)>>)), Text(<<";">>)>>)), Text(<<"]">>)>> ]
-RecNames == {"sum", "down", "fib", "after", "twice", "apply", "compose", "rebind", "nestarg", "retarr", "siblings", "manycalls", "retnil", "zeroparam"}
+RecNames == {"sum", "down", "fib", "after", "twice", "apply", "compose", "rebind", "nestarg", "retarr", "siblings", "manycalls", "retnil", "zeroparam", "noret", "underscore"}
 RECURSIVE Fib(_)
 Fib(k) == IF k < 2 THEN k ELSE Fib(k - 1) + Fib(k - 2)
 RECURSIVE Rep(_, _)
@@ -122,6 +129,8 @@ RecText(nm, k) ==
     [] nm = "retarr" -> <<"[", "1", ",", "(">> \o IntChars(k) \o <<")", ",", "2", ",", "1", ",", "9", "]">>
     [] nm = "retnil" -> IF k = 1 THEN <<"[", "T", ",", "f", "a", "l", "s", "e", ",", "s", ",", "T", ",", "o", "n", "e", "]">>
                         ELSE <<"[", "F", ",", "t", "r", "u", "e", ",", "n", ",", "F", ",", "]">>
+    [] nm = "noret" -> <<"[", "|", "o", "u", "t", "|", "A", "|", "o", "u", "t", "|", "o", "u", "t", "]">>
+    [] nm = "underscore" -> <<"[">> \o IntChars(k) \o <<"|">> \o IntChars(k) \o <<"|", "z", "]">>
     [] nm = "zeroparam" -> <<"[", "5", "1", "|">> \o IntChars(k) \o <<"|", "-", "|", "5", "1", "]">>
     [] nm = "rebind" -> <<"[">> \o IntChars(k + 1) \o <<";">> \o IntChars(2 * k) \o <<";">> \o IntChars(k + 1) \o <<";", "]">>
 
